@@ -628,14 +628,23 @@ def rule_W1(ctx) -> None:
             ctx.proved("W1", f"tag-split[{q}]", mod.loc(fn))
         else:
             ctx.refuted("W1", f"tag-split[{q}]", detail, mod.loc(fn), f"the reader yields {detail}; reference: number = tag >> {tag_bits}, wire type = tag & {(1 << tag_bits) - 1}")
+    rule_W1f(ctx, "W1")
+
+
+def rule_W1f(ctx, rule: str = "N4") -> None:
+    """the struct format of every fixed-width type is the reference encoder's: width, byte order and signedness (an unsigned
+    type packed with a signed format raises for the upper half of its range and decodes it as negative numbers)"""
+    m = model(ctx)
+    mod = m.mod
+    ref = Reference()
     fmts, origin2 = ref.struct_formats()
     ctx.oracle(origin2)
     tbl = pack_fmt_table(mod)
     for t, f in fmts.items():
         if tbl.get(t) == f:
-            ctx.proved("W1", f"struct-format[{t}]", _fmt_loc(mod))
+            ctx.proved(rule, f"struct-format[{t}]", _fmt_loc(mod))
         else:
-            ctx.refuted("W1", f"struct-format[{t}]", f"{tbl.get(t)}!={f}", _fmt_loc(mod), f"_pack_fmt({t}) = {tbl.get(t)!r}, reference encoder uses {f!r}",
+            ctx.refuted(rule, f"struct-format[{t}]", f"{tbl.get(t)}!={f}", _fmt_loc(mod), f"_pack_fmt({t}) = {tbl.get(t)!r}, reference encoder uses {f!r}",
                         f"bytes(M(x=1)) for a {t} field")
 
 
